@@ -8,9 +8,9 @@ if TYPE_CHECKING:  # pragma: no cover
 
 
 def prepare_text_for_dbml(text: str) -> str:
-    '''Escape single quotes'''
+    '''Escape backslashes and single quotes'''
     pattern = re.compile(r"('''|')")
-    return pattern.sub(r'\\\1', text)
+    return pattern.sub(r'\\\1', text.replace('\\', '\\\\'))
 
 
 def quote_name(name: str) -> str:
